@@ -42,6 +42,9 @@ CHECKS = {
  "C01": dict(tech="static analysis: linear-normal-form guard matching with must-pass queries, once-per-cycle path rules, clamp/midpoint recogniser over the phi tree of the actuated value, channel/source pairing on SSA",
    text="Structural necessary conditions decided exactly for their clause: the five start-up conditions (canonical linear form) lie on every path to the actuation and their failure panics; one adj.Do and one clk.Sleep(SyncInterval) per loop cycle; the actuated value is on every arm 0, clamp(ref, RCI*float64(Drift(SI))), clamp(peer, PCI*float64(Drift(SI))) under the peer flag set only beyond the cutoff, or their Midpoint, never a value carried over from an earlier round; ref/peer values come from their own rounds. Float rounding, FTM values and int64 extremes are not decided.",
    ref="DESIGN.md §4 C01"),
+ "C19": dict(tech="static analysis: who-may-call rules, must-pass guard queries for Step/Adjust, sign-inversion parity of the step argument, reset-before-dispatch path rule, two-sided clamp recogniser on SSA",
+   text="Structural necessary conditions decided exactly for their clause: the only Step call is in Pll.Do behind mode==1, mdt>2s, weight>3, |offset|>1ms, steps by the caller's offset (even inversion parity) and is followed by t0<-now and mode++; every path to the mode dispatch has epoch==clk.Epoch() or passed mode<-0 (epoch recorded); the only Adjust call gets Duration(p) with p = 0 outside tracking and two-sidedly clamped to +-ceil(dt)*500e-6 in tracking, and is reachable only through d > 0. Integrator finiteness and gains are not decided.",
+   ref="DESIGN.md §4 C19"),
 }
 NA = {
  "C04": "all clauses are value arithmetic over time.Time/uint32 (truncation direction, era unfolding, order preservation); no structural or finite-domain clause; matching the constants would be a frozen-fragment proxy",
